@@ -909,6 +909,7 @@ func kinds() *World {
 			"sref":  {IsOptional: true, Constraint: schema.Reference{OfScopeId: "thing"}},
 			"td":    {IsOptional: true, Constraint: schema.TypeDeclaration{}},
 			"td2":   {IsOptional: true, Constraint: schema.TypeDeclaration{}},
+			"td3":   {IsOptional: true, Constraint: schema.TypeDeclaration{}},
 			"lst":   {IsOptional: true, Constraint: schema.List{Elem: schema.LiteralType{Type: cty.String}}},
 			"st":    {IsOptional: true, Constraint: schema.Set{Elem: schema.Reference{OfScopeId: "thing"}}},
 			"tup":   {IsOptional: true, Constraint: schema.Tuple{Elems: []schema.Constraint{schema.LiteralType{Type: cty.String}, schema.Reference{OfType: cty.Number}}}},
@@ -956,6 +957,7 @@ ref  = thing.a.s
 sref = thing.b
 td   = map(list(object({ a = string, b = optional(number, 1) })))
 td2  = tuple([string, set(number)])
+td3  = map(object())
 lst  = ["x", "yy"]
 st   = [thing.a, thing.b]
 tup  = ["s", thing.a.n]
